@@ -126,7 +126,7 @@ fn catalogue() -> Vec<(&'static str, Vec<u8>)> {
     v.push(("disconnect-reason-string", wire::pkt(0xe0, &body)));
     // Deliverable PUBLISH packets whose property block goes wrong somewhere in the middle: the message
     // is handed to the application, which iterates the block to its end (errors included).
-    let blocks: [&[u8]; 22] = [
+    let blocks: [&[u8]; 25] = [
         &[0x80, 0x01, 0x01],
         &[0x80, 0x80, 0x01, 0x01],
         &[0x80, 0x80, 0x80, 0x01, 0x01],
@@ -149,6 +149,9 @@ fn catalogue() -> Vec<(&'static str, Vec<u8>)> {
         &[0x26, 0x00, 0x01, 0xc0, 0x00, 0x01, 0x76, 0x01, 0x01],
         &[0x26, 0x00, 0x01, 0x6b, 0x00, 0x01, 0xc0, 0x01, 0x01],
         &[0x7e, 0x01, 0x01],
+        &[0x03, 0x00, 0x02, 0xc0, 0xc0],
+        &[0x26, 0x00, 0x01, 0x6b, 0x00, 0x02, 0xc0, 0xc0],
+        &[0x26, 0x00, 0x02, 0xc0, 0xc0],
     ];
     for block in blocks {
         v.push(("publish-props-go-wrong", wire::publish(b"t", None, 0, false, false, block, b"p")));
